@@ -14,7 +14,8 @@ META = {
             "and the exact backward operator is proved to be the exact matrix inverse of the forward sum. invert_matching_coeffs "
             "is proved, with fully symbolic upward coefficients c_nk and log L, to satisfy f(g(a)) = a + O(a^5) and g(f(a)) = a + "
             "O(a^5) for the coupling decoupling series; the POLE/MSBAR coupling tables and the MSbar mass table are pushed "
-            "through compute_matching_coeffs_down and composed likewise (mass: multiplicative inverse through a^3).",
+            "through compute_matching_coeffs_down and composed likewise (mass: multiplicative inverse through a^3)."
+            " The mass decoupling as APPLIED by msbar_masses.evolve upwards and downwards across one threshold (recording coupling, one symbol per flavour number) composes to the identity through the implemented order.",
     "note": "Formula level, all matrices/coefficients symbolic; series coefficients exact in F_p at random points (error < 1e-30).",
     "technique": "partial evaluation to formulas + truncated series over F_p (valuation test) + polynomial identity testing",
     "engine": "sa",
